@@ -54,7 +54,16 @@ type PtrTarget struct {
 	Path []PathElem
 }
 
-type PtrV struct{ T []PtrTarget }
+// NonNil: the pointer is the address of a local/heap allocation (ssa.Alloc)
+// in every alternative - merged alternatives come from different unrolled
+// iterations of the same allocation site.  By SSA dominance a use of such a
+// register is always preceded by one of the allocations, so it is never nil
+// where it is read, although the disjunction of the target guards is not
+// syntactically true.
+type PtrV struct {
+	T      []PtrTarget
+	NonNil bool
+}
 
 type SliceV struct {
 	Arr           *PtrV // points at an ArrV / VecV location
@@ -339,7 +348,7 @@ func merge(g *Term, a, b Value) Value {
 		if x == y {
 			return x
 		}
-		return &PtrV{T: mergeTargets(g, x.T, y.T)}
+		return &PtrV{T: mergeTargets(g, x.T, y.T), NonNil: x.NonNil && y.NonNil}
 	case *SliceV:
 		y := b.(*SliceV)
 		if x == y {
@@ -426,6 +435,9 @@ func ptrTo(o *Object, path ...PathElem) *PtrV {
 }
 
 func (p *PtrV) isNil() *Term {
+	if p.NonNil {
+		return tFalse
+	}
 	var gs []*Term
 	for _, t := range p.T {
 		gs = append(gs, t.G)
@@ -434,7 +446,7 @@ func (p *PtrV) isNil() *Term {
 }
 
 func (p *PtrV) extend(e PathElem) *PtrV {
-	out := &PtrV{T: make([]PtrTarget, len(p.T))}
+	out := &PtrV{T: make([]PtrTarget, len(p.T)), NonNil: p.NonNil}
 	for i, t := range p.T {
 		np := make([]PathElem, len(t.Path)+1)
 		copy(np, t.Path)
